@@ -12,6 +12,13 @@
 (*   add / sub: (min ld, min lb - offset),  offset from the smaller effective_k                   *)
 (*   mul / square: lb0 = min lb - max ld (underflow error if negative), ld = min ld,                *)
 (*                 offset = max(0, lb0 + ld - maxk(dst)),  (ld, lb0 - offset)                       *)
+(*   plaintext operands carry their own precision (pld, plb); stored width pk = ceil((pld+plb)/B)*B:  *)
+(*   ct +- vector plaintext: (ld, lb - offset), alignment error unless lb' + pld >= pk              *)
+(*   ct +- constant:         (ld, lb - offset)   (the constant is encoded at lb' + pld bits)         *)
+(*   ct * plaintext (vector or constant): lb0 = lb - pld (underflow error if negative), ld kept,    *)
+(*                 offset = max(0, lb0 + ld - maxk(dst)),  (ld, lb0 - offset)                       *)
+(*   fused forms are compositions:  mul_add(dst, a, y) = add_assign(dst, mul_into(tmp like dst, a, y)) *)
+(*   add_many = add_into of the first two, then add_assign of the others (one input: unary copy)     *)
 (* Alongside, a worst-case model of the value magnitude (mag, log2) and of the slot error          *)
 (* (el, log2) lets the trace validator bound the observed error by something proportional to       *)
 (* 2^-log_delta.                                                                                  *)
@@ -38,6 +45,43 @@ Err(kind, d) == [status |-> kind, reg |-> [d EXCEPT !.st = "bad"]]
 HasKey(rot) == rot \in {1, 2}
 Fresh(ld) == S0 - ld
 With(d, ld, lb, mag, el) == [d EXCEPT !.st = "ok", !.ld = ld, !.lb = lb, !.mag = mag, !.el = el]
+
+\* ---- register-level outcomes (shared by the plain and the fused operations)
+OffU(d, a) == Max2(0, Ek(a) - d.maxk)
+\* a plaintext operand: precision pld, stored width pk, magnitude pmag (log2), quantisation error 2^(S0 - pld)
+Pt(s) == [ld |-> s.pld, pk |-> DivCeil2(s.pld + s.pplb, B) * B, mag |-> s.pmag, el |-> S0 - s.pld]
+AddOut(d, a, b) ==
+  LET off == Max2(0, Min2(Ek(a), Ek(b)) - d.maxk)
+      lb == Min2(a.lb, b.lb)
+  IN IF off > lb THEN Err(ErrCap, d) ELSE Ok(With(d, Min2(a.ld, b.ld), lb - off, Max2(a.mag, b.mag) + 1, Max2(a.el, b.el) + 1))
+AddAssignOut(d, b) == Ok(With(d, Min2(d.ld, b.ld), Min2(d.lb, b.lb), Max2(d.mag, b.mag) + 1, Max2(d.el, b.el) + 1))
+MulOut(d, x, y) ==
+  LET lb0 == Min2(x.lb, y.lb) - Max2(x.ld, y.ld)
+      ld == Min2(x.ld, y.ld)
+      off == Max2(0, lb0 + ld - d.maxk)
+  IN IF lb0 < 0 THEN Err(ErrMul, d)
+     ELSE IF off > lb0 THEN Err(ErrCap, d)
+     ELSE Ok(With(d, ld, lb0 - off, x.mag + y.mag, Max2(Max2(x.el + y.mag, y.el + x.mag), Fresh(ld)) + 2))
+\* ct (+-) vector plaintext: the ciphertext is moved into dst first, then the plaintext is aligned on it
+AddPtvOut(d, a, p, into) ==
+  LET off == IF into THEN OffU(d, a) ELSE 0
+      lb1 == a.lb - off
+  IN IF off > a.lb THEN Err(ErrCap, d)
+     ELSE IF lb1 + p.ld < p.pk THEN Err(ErrAlign, d)
+     ELSE Ok(With(d, a.ld, lb1, Max2(a.mag, p.mag) + 1, Max2(a.el, p.el) + 1))
+AddPtcOut(d, a, p, into) ==
+  LET off == IF into THEN OffU(d, a) ELSE 0
+  IN IF off > a.lb THEN Err(ErrCap, d) ELSE Ok(With(d, a.ld, a.lb - off, Max2(a.mag, p.mag) + 1, Max2(a.el, -p.ld) + 1))
+MulPtOut(d, x, p) ==
+  LET lb0 == x.lb - p.ld
+      off == Max2(0, lb0 + x.ld - d.maxk)
+  IN IF lb0 < 0 THEN Err(ErrMul, d)
+     ELSE IF off > lb0 THEN Err(ErrCap, d)
+     ELSE Ok(With(d, x.ld, lb0 - off, x.mag + p.mag, Max2(Max2(x.el + p.mag, p.el + x.mag), Fresh(x.ld)) + 2))
+\* the temporary of the fused forms is laid out like the destination
+TmpLike(d) == [None EXCEPT !.st = "empty", !.maxk = d.maxk]
+Fused(d, t, sub) == IF t.status # "ok" THEN Err(t.status, d) ELSE AddAssignOut(d, t.reg)
+UnaryCopyOut(d, a) == IF OffU(d, a) > a.lb THEN Err(ErrCap, d) ELSE Ok(With(d, a.ld, a.lb - OffU(d, a), a.mag, a.el))
 
 \* outcome of one step on the register file regs (a function 0..3 -> register); s = the step record
 Outcome(regs, s) ==
@@ -68,21 +112,24 @@ Outcome(regs, s) ==
              off == Max2(0, lb1 + a.ld - d.maxk)
          IN IF s.bits > a.lb \/ off > lb1 THEN Err(ErrCap, d) ELSE Ok(With(d, a.ld, lb1 - off, a.mag, a.el))
     [] s.op = "rescale_assign" -> IF s.bits > d.lb THEN Err(ErrCap, d) ELSE Ok([d EXCEPT !.lb = d.lb - s.bits])
-    [] s.op \in {"add_into", "sub_into"} ->
-         LET off == Max2(0, Min2(Ek(a), Ek(b)) - d.maxk)
-             lb == Min2(a.lb, b.lb)
-         IN IF off > lb THEN Err(ErrCap, d) ELSE Ok(With(d, Min2(a.ld, b.ld), lb - off, Max2(a.mag, b.mag) + 1, Max2(a.el, b.el) + 1))
-    [] s.op \in {"add_assign", "sub_assign"} ->
-         Ok(With(d, Min2(d.ld, b.ld), Min2(d.lb, b.lb), Max2(d.mag, b.mag) + 1, Max2(d.el, b.el) + 1))
+    [] s.op \in {"add_into", "sub_into"} -> AddOut(d, a, b)
+    [] s.op \in {"add_assign", "sub_assign"} -> AddAssignOut(d, b)
     [] s.op \in {"mul_into", "mul_assign", "square_into", "square_assign"} ->
          LET x == IF s.op \in {"mul_assign", "square_assign"} THEN d ELSE a
              y == IF s.op = "square_into" THEN a ELSE IF s.op = "square_assign" THEN d ELSE b
-             lb0 == Min2(x.lb, y.lb) - Max2(x.ld, y.ld)
-             ld == Min2(x.ld, y.ld)
-             off == Max2(0, lb0 + ld - d.maxk)
-         IN IF lb0 < 0 THEN Err(ErrMul, d)
-            ELSE IF off > lb0 THEN Err(ErrCap, d)
-            ELSE Ok(With(d, ld, lb0 - off, x.mag + y.mag, Max2(Max2(x.el + y.mag, y.el + x.mag), Fresh(ld)) + 2))
+         IN MulOut(d, x, y)
+    [] s.op \in {"add_ptv_into", "sub_ptv_into"} -> AddPtvOut(d, a, Pt(s), TRUE)
+    [] s.op \in {"add_ptv_assign", "sub_ptv_assign"} -> AddPtvOut(d, d, Pt(s), FALSE)
+    [] s.op \in {"add_ptc_into", "sub_ptc_into"} -> AddPtcOut(d, a, Pt(s), TRUE)
+    [] s.op \in {"add_ptc_assign", "sub_ptc_assign"} -> AddPtcOut(d, d, Pt(s), FALSE)
+    [] s.op \in {"mul_ptv_into", "mul_ptc_into"} -> MulPtOut(d, a, Pt(s))
+    [] s.op \in {"mul_ptv_assign", "mul_ptc_assign"} -> MulPtOut(d, d, Pt(s))
+    [] s.op \in {"mul_add_ct", "mul_sub_ct"} -> Fused(d, MulOut(TmpLike(d), a, b), s.op = "mul_sub_ct")
+    [] s.op \in {"mul_add_ptv", "mul_sub_ptv", "mul_add_ptc", "mul_sub_ptc"} -> Fused(d, MulPtOut(TmpLike(d), a, Pt(s)), FALSE)
+    [] s.op = "add_many" ->      \* inputs a, b and (when s.bits = 3) register s.c as well; s.bits = number of inputs
+         IF s.bits = 1 THEN UnaryCopyOut(d, a)
+         ELSE LET t == AddOut(d, a, b) IN
+              IF s.bits = 2 \/ t.status # "ok" THEN t ELSE AddAssignOut(t.reg, regs[s.c])
     [] s.op = "compact" -> Ok([d EXCEPT !.maxk = DivCeil2(Ek(d), B) * B])
     [] OTHER -> \* realloc to s.bits limbs
          IF s.bits < DivCeil2(Ek(d), B) THEN Err(ErrLimb, d) ELSE Ok([d EXCEPT !.maxk = s.bits * B])
